@@ -195,6 +195,10 @@ class Sim:
                     self.log.append({'t': self.now, 'ev': 'lost-peer-gone', 'to': dst.proc.name, 'typ': dst.typ})
                     continue
                 dst.inbox.append(msg)
+                if b'"mid":-2' in msg[0] or (len(msg) > 1 and b'"mid":-2' in msg[1]):
+                    # out-of-band (exit) message reached a socket of its addressee: recorded for the C08 obey clause
+                    self.log.append({'t': self.now, 'ev': 'oob-delivered', 'to': dst.proc.name, 'to_inc': dst.proc.inc, 'from': src.proc.name,
+                                     'from_inc': src.proc.inc, 'env': msg[1] if src.typ == PUB else msg[0], 'typ': dst.typ})
                 p = dst.proc
                 if p.alive and p.blocked == 'poll' and p.poll_wait is not None and dst in p.poll_wait:
                     p.poll_wait = None
